@@ -414,6 +414,7 @@ impl Check for BuildCheck {
 						.arg(c)
 						.arg(tier.name())
 						.env("VERIF_NO_EVIDENCE", "1")
+						.env("VERIF_RUNS_DIV", if tier == Tier::Quick { "4" } else { "2" })
 						.env("VERIF_SEED", seed.to_string())
 						.env("VERIF_DIR", dir.to_string_lossy().to_string())
 						.output();
